@@ -138,7 +138,6 @@ def h_turn_algebra(sx):
     sx.cover('turn-sequences')
     sx.check(state.agent.orientation is o, 'turn-sequence-restores')
     sx.check(sym_and(state.agent.position.y == py, state.agent.position.x == px), 'turn-never-displaces')
-    sx.check(not post_cells(state), 'turn-reads-no-cell')
 
 
 def obligations(tier):
